@@ -175,6 +175,24 @@ CATALOGUE = {
     "fixed-list-index-types": ["const fx = [1, \"a\", 2.5]", "print typeof fx[0]", "print fx[0]", "print typeof fx[1]", "print fx[1]"],
     "fixed-list-last": ["const fx = [1, \"a\", 2.5]", "print typeof fx[2]", "print fx[2]"],
     "unpack-types": ["[u1, u2] = [1, \"a\"]", "print typeof u1", "print u1", "print typeof u2", "print u2"],
+    # (a line that starts with `[` continues the statement before it, so an unpacking statement is the first one of a block here)
+    "unpack-single-name": ["if true {", "\t[u1] = [7]", "\tprint typeof u1", "\tprint u1", "}"],
+    "unpack-single-name-str": ["if true {", "\t[u1] = [\"a\"]", "\tprint typeof u1", "\tprint u1", "\tprint typeof (u1 + \"b\")", "\tprint u1 + \"b\"", "}"],
+    "unpack-single-name-trailing-comma": ["if true {", "\t[u1,] = [7]", "\tprint typeof u1", "\tprint u1", "}"],
+    "unpack-three": ["[u1, u2, u3] = [1, \"a\", 2.5]", "print typeof u3", "print u3", "print typeof u1", "print u1"],
+    "unpack-from-const": ["const fx = [1, \"a\"]", "[u1, u2] = fx", "print typeof u2", "print u2"],
+    "unpack-single-from-const": ["const fx = [\"a\"]", "if true {", "\t[u1] = fx", "\tprint typeof u1", "\tprint u1", "}"],
+    "str-index-assign": ["st = \"hello\"", "st[0] = \"a\"", "print typeof st", "print st"],
+    "str-index-opassign": ["st = \"hello\"", "st[0] += \"a\"", "print typeof st", "print st"],
+    "str-index-assign-in-fn": ["sf = fn(st: str) -> str {", "\tst[1] = \"z\"", "\treturn st", "}", "print typeof sf(\"ab\")", "print sf(\"ab\")"],
+    "alias-of-class-fn-field": ["class A {", "\tf: fn(int) -> int", "\tconstructor(self) {", "\t\tself.f = fn(x: int) -> int {", "\t\t\treturn x + 1", "\t\t}", "\t}",
+                                "\tfn m(self, y: int) -> int {", "\t\treturn y * 2", "\t}", "}", "type B A", "ab: B = A()", "print typeof ab.f(1)", "print ab.f(1)", "print typeof ab.m(4)", "print ab.m(4)"],
+    "alias-of-alias-of-class-fn-field": ["class A {", "\tf: fn(int) -> int", "\tconstructor(self) {", "\t\tself.f = fn(x: int) -> int {", "\t\t\treturn x + 1", "\t\t}", "\t}", "}",
+                                         "type B A", "type D B", "ad: D = A()", "print typeof ad.f(1)", "print ad.f(1)"],
+    "optional-class-fn-field": ["class A {", "\tf: fn(int) -> int", "\tconstructor(self) {", "\t\tself.f = fn(x: int) -> int {", "\t\t\treturn x + 1", "\t\t}", "\t}", "}",
+                                "oa: A? = A()", "ua = get oa", "print typeof ua.f(1)", "print ua.f(1)"],
+    "param-alias-of-class-fn-field": ["class A {", "\tf: fn(int) -> int", "\tconstructor(self) {", "\t\tself.f = fn(x: int) -> int {", "\t\t\treturn x + 1", "\t\t}", "\t}", "}",
+                                      "type B A", "use = fn(q: B) -> int {", "\treturn q.f(5)", "}", "print typeof use(A())", "print use(A())"],
     "alias-arith": ["type M int", "am: M = 4", "print typeof (am * 2)", "print am * 2"],
     "self-returning-method": ["class S {", "\tn: int", "\tconstructor(self) {", "\t\tself.n = 1", "\t}", "\tfn me(self) -> Self {", "\t\treturn self",
                               "\t}", "}", "so = S()", "print typeof so.me().n", "print so.me().n"],
